@@ -14,13 +14,16 @@
 //            s    upstream.request_stop()                q    upstream.stop_requested()
 //            A    attach: fused.register_callbacks(upstream token) / adapter.subscribe(token)
 //            U    detach: deregister_callbacks() / unsubscribe()  (waits until A returned)
+// "adapter_dm": the adapter over an upstream token type whose move is destructive (moved-from = not
+// stoppable, like std::stop_token).  Clients use the token subscribe() returned.
 // (only in thread programs).  The forwarding callback is the library's own functor, so it logs
 // nothing; actions "ub" (s/A begins), "us b" (s returned b), "att" (A returned), "uret" (U returned),
 // marker 19 before U.
 //
 // Callback objects live in raw storage (construct = placement new, D = destructor call followed
 // by poisoning the storage), so a use of a destroyed callback by the library is visible.
-// Owner synchronisation: D<c> first waits until the constructor of c returned.
+// Owner synchronisation: D<c> first waits until the constructor of c returned -- unless it is called
+// from inside the inline execution of c itself (registration after the stop), which is allowed.
 // Markers (driver-owned atomic "mark", one store = one schedule point):
 //   10+c  destructor of c is about to be called        20+c  body of callback c is about to return
 //   30+c  W<c> passed
@@ -37,17 +40,28 @@ using Prog = std::vector<Instr>;
 constexpr int MAXCB = 8;
 
 // a stop token type that is not inplace_stop_token, so that the generic inplace_stop_token_adapter is used
-struct wtoken {
+template <bool DestructiveMove>
+struct wtoken_t {
   inplace_stop_token tok;
-  bool stop_requested() const noexcept { return tok.stop_requested(); }
-  bool stop_possible() const noexcept { return tok.stop_possible(); }
+  bool engaged = true;
+  wtoken_t() noexcept = default;
+  explicit wtoken_t(inplace_stop_token t) noexcept : tok(t) {}
+  wtoken_t(const wtoken_t&) noexcept = default;
+  wtoken_t& operator=(const wtoken_t&) noexcept = default;
+  // with DestructiveMove the moved-from token is disengaged, like std::stop_token
+  wtoken_t(wtoken_t&& o) noexcept : tok(o.tok), engaged(o.engaged) { if (DestructiveMove) { o.engaged = false; o.tok = inplace_stop_token{}; } }
+  wtoken_t& operator=(wtoken_t&& o) noexcept { tok = o.tok; engaged = o.engaged; if (DestructiveMove) { o.engaged = false; o.tok = inplace_stop_token{}; } return *this; }
+  bool stop_requested() const noexcept { return engaged && tok.stop_requested(); }
+  bool stop_possible() const noexcept { return engaged && tok.stop_possible(); }
   template <typename F>
   struct callback_type {
     inplace_stop_callback<F> inner;
     template <typename T>
-    callback_type(wtoken t, T&& f) noexcept : inner(t.tok, (T&&)f) {}
+    callback_type(wtoken_t t, T&& f) noexcept : inner(t.tok, (T&&)f) {}
   };
 };
+using wtoken = wtoken_t<false>;
+using dtoken = wtoken_t<true>;
 
 struct Shared;
 struct Fn {
@@ -57,13 +71,24 @@ struct Fn {
 using cb_t = inplace_stop_callback<Fn>;
 
 struct Shared {
-  int mode = 0;   // 0 single source, 1 fused_stop_source, 2 inplace_stop_token_adapter
+  int mode = 0;   // 0 single source, 1 fused_stop_source, 2 inplace_stop_token_adapter<wtoken>,
+                  // 3 inplace_stop_token_adapter<dtoken> (upstream token with a destructive move)
   inplace_stop_source src;
   inplace_stop_source up;
   fused_stop_source<inplace_stop_token> fs;
   inplace_stop_token_adapter<wtoken> ad;
+  inplace_stop_token_adapter<dtoken> ad2;
+  inplace_stop_token sub_tok;   // what subscribe() returned (adapter modes)
   bool attached = false;
-  inplace_stop_source& in() { return mode == 0 ? src : mode == 1 ? static_cast<inplace_stop_source&>(fs) : ad.source_; }
+  int constructing[MAXCB] = {-1, -1, -1, -1, -1, -1, -1, -1};   // thread inside the constructor of c
+  inplace_stop_source& in() {
+    return mode == 0 ? src : mode == 1 ? static_cast<inplace_stop_source&>(fs) : mode == 2 ? ad.source_ : ad2.source_;
+  }
+  // the token clients use: for the adapters, the one subscribe() handed out
+  inplace_stop_token tok() {
+    if (mode >= 2) { dsched::block_until([this] { return attached; }); return sub_tok; }
+    return in().get_token();
+  }
   alignas(cb_t) unsigned char store[MAXCB][sizeof(cb_t)];
   bool registered[MAXCB] = {};
   bool dstarted[MAXCB] = {};
@@ -79,8 +104,10 @@ struct Shared {
         using fct = decltype(fs)::fused_callback_type;
         auto* f = reinterpret_cast<fct*>(&fs.callbacks_);   // payload of the optional
         dsched::name_range(&f->callback_.callbackCompleted_, 1, "fwd.done");
-      } else {
+      } else if (mode == 2) {
         dsched::name_range(&ad.callback_.get().inner.callbackCompleted_, 1, "fwd.done");
+      } else {
+        dsched::name_range(&ad2.callback_.get().inner.callbackCompleted_, 1, "fwd.done");
       }
     }
     dsched::name_range(&mark, sizeof(mark), "mark");
@@ -94,13 +121,20 @@ void run_prog(Shared* sh, const Prog& p) {
     Instr in = p[i];
     switch (in.op) {
       case 'R':
-        new (sh->store[in.c]) cb_t(sh->in().get_token(), Fn{sh, in.c});
+      {
+        inplace_stop_token tk = sh->tok();
+        sh->constructing[in.c] = dsched::self();
+        new (sh->store[in.c]) cb_t(tk, Fn{sh, in.c});
+        sh->constructing[in.c] = -1;
         sh->registered[in.c] = true;
+      }
         dsched::action("regd %d", in.c);
         break;
       case 'D': {
         int c = in.c;
-        dsched::block_until([sh, c] { return sh->registered[c] && !sh->dstarted[c]; });
+        int me = dsched::self();
+        // after the constructor returned, or from inside the inline execution of c itself
+        dsched::block_until([sh, c, me] { return (sh->registered[c] || sh->constructing[c] == me) && !sh->dstarted[c]; });
         sh->dstarted[c] = true;
         sh->mark.store(10 + c, std::memory_order_relaxed);
         sh->slot(c)->~cb_t();
@@ -120,7 +154,7 @@ void run_prog(Shared* sh, const Prog& p) {
         break;
       }
       case 'Q':
-        (void)sh->in().get_token().stop_requested();
+        (void)sh->tok().stop_requested();
         break;
       case 's': {
         dsched::action("ub");
@@ -133,16 +167,18 @@ void run_prog(Shared* sh, const Prog& p) {
         break;
       case 'A':
         dsched::action("ub");
-        if (sh->mode == 1) sh->fs.register_callbacks(sh->up.get_token());
-        else (void)sh->ad.subscribe(wtoken{sh->up.get_token()});
+        if (sh->mode == 1) { sh->fs.register_callbacks(sh->up.get_token()); sh->sub_tok = sh->fs.get_token(); }
+        else if (sh->mode == 2) sh->sub_tok = sh->ad.subscribe(wtoken{sh->up.get_token()});
+        else sh->sub_tok = sh->ad2.subscribe(dtoken{sh->up.get_token()});
         sh->attached = true;
-        dsched::action("att");
+        dsched::action("att %d", (int)sh->sub_tok.stop_possible());
         break;
       case 'U':
         dsched::block_until([sh] { return sh->attached; });
         sh->mark.store(19, std::memory_order_relaxed);
         if (sh->mode == 1) sh->fs.deregister_callbacks();
-        else sh->ad.unsubscribe();
+        else if (sh->mode == 2) sh->ad.unsubscribe();
+        else sh->ad2.unsubscribe();
         dsched::action("uret");
         break;
     }
@@ -152,6 +188,7 @@ void run_prog(Shared* sh, const Prog& p) {
 void Fn::operator()() noexcept {
   Shared* s = sh;     // the body may destroy this very object
   int id = c;
+  if (s->constructing[id] == dsched::self()) dsched::action("inl %d", id);
   dsched::action("exec %d", id);
   Prog body = id < (int)s->bodies.size() ? s->bodies[id] : Prog{};
   run_prog(s, body);
@@ -194,7 +231,7 @@ int main(int argc, char** argv) {
     }
 
   int mode = 0;
-  if (cli.prog.size() > 2) mode = cli.prog[2] == "fused" ? 1 : cli.prog[2] == "adapter" ? 2 : 0;
+  if (cli.prog.size() > 2) mode = cli.prog[2] == "fused" ? 1 : cli.prog[2] == "adapter" ? 2 : cli.prog[2] == "adapter_dm" ? 3 : 0;
   auto make = [&]() -> std::vector<std::function<void()>> {
     auto sh = std::make_shared<Shared>();
     sh->mode = mode;
@@ -207,23 +244,30 @@ int main(int argc, char** argv) {
 
   // direct monitor: C03 evaluated on the implementation's own run
   auto monitor = [&](const dsched::Result& r) -> std::string {
-    int execs[MAXCB] = {}, running[MAXCB], dret[MAXCB] = {}, regd[MAXCB] = {};
+    int execs[MAXCB] = {}, running[MAXCB], dret[MAXCB] = {}, regd[MAXCB] = {}, inl[MAXCB];
+    int selfinl[16]; for (int& x : selfinl) x = -1;   // per thread: inline callback whose destructor runs inside itself
+    for (int& x : inl) x = -1;
     for (int& x : running) x = -1;
     int rs0 = 0, rsall = 0, att = 0, us = 0, uret = 0; bool stopbit = false;
     for (auto& e : r.trace) {
       int t = -1, c = -1, v = -1; char buf[64];
-      if (std::sscanf(e.c_str(), "t%d !exec %d", &t, &c) == 2) {
+      if (std::sscanf(e.c_str(), "t%d !inl %d", &t, &c) == 2) {
+        inl[c] = t;
+      } else if (std::sscanf(e.c_str(), "t%d !exec %d", &t, &c) == 2) {
         if (++execs[c] > 1) return "callback " + std::to_string(c) + " executed twice";
         if (dret[c]) return "callback " + std::to_string(c) + " executed after its deregistration returned";
         if (!stopbit) return "callback " + std::to_string(c) + " executed before stop was requested";
         running[c] = t;
       } else if (std::sscanf(e.c_str(), "t%d mark S.rlx %d", &t, &v) == 2) {
         if (v >= 20 && v < 30) running[v - 20] = -1;
+        if (v >= 10 && v < 18 && t < 16 && running[v - 10] == t && inl[v - 10] == t) selfinl[t] = v - 10;
       } else if (std::sscanf(e.c_str(), "t%d !dret %d", &t, &c) == 2) {
         dret[c] = 1;
+        if (t < 16 && selfinl[t] == c) selfinl[t] = -1;
         if (running[c] >= 0 && running[c] != t)
           return "deregistration of callback " + std::to_string(c) + " returned while it runs on thread " + std::to_string(running[c]);
       } else if (e.find(" !att") != std::string::npos) { ++att;
+        if (e.find(" !att 0") != std::string::npos) return "attach handed out an unstoppable token for a stoppable upstream token";
       } else if (e.find(" !us ") != std::string::npos) { ++us;
       } else if (e.find(" !uret") != std::string::npos) { ++uret;
       } else if (std::sscanf(e.c_str(), "t%d !regd %d", &t, &c) == 2) {
@@ -233,6 +277,8 @@ int main(int argc, char** argv) {
       } else if (std::sscanf(e.c_str(), "t%d cb%d.done %60s", &t, &c, buf) == 3) {
         if (dret[c]) return "callback " + std::to_string(c) + " accessed after its deregistration returned: " + e;
       } else if (std::sscanf(e.c_str(), "t%d src.state %60s", &t, buf) == 2) {
+        if (t < 16 && selfinl[t] >= 0)
+          return "destructor of callback " + std::to_string(selfinl[t]) + " called from inside its inline execution touched the source: " + e;
         // value written: S.<o> v | C.<o> a->b ok ; value read: L.<o> v
         int a = -1, b = -1; const char* rest = std::strchr(e.c_str() + e.find("src.state") + 10, ' ');
         bool nowstop = stopbit;
